@@ -27,3 +27,31 @@ void h_Xmemcpy_##N(void) {                                                      
 }
 H_XMEMCPY(16)
 H_XMEMCPY(32)
+
+/* Same statement with the chunk count case-split into constants (0..XM_SPLIT_MAX): block sizes and loop bounds become concrete, which is
+ * what lets the avx2 bodies (nested loops + fall-through switch) through the solver. The union of the cases is the bounded domain. */
+#ifndef XM_SPLIT_MAX
+#define XM_SPLIT_MAX 9
+#endif
+#define XM_CASE(N, C)                                                                                  \
+  case C: {                                                                                            \
+    uint8_t *src = malloc((C) * N + 1), *dst = malloc((C) * N + 1);  /* +1: malloc(0) is not an object; byte (C)*N is a guard byte */ \
+    __CPROVER_assume(src != NULL && dst != NULL);                                                      \
+    size_t k; __CPROVER_assume(k <= (C) * N); in_k = k;                                                \
+    uint8_t want = src[k], dwas = dst[k];                                                              \
+    Xmemcpy_##N(dst, src, C);                                                                          \
+    __CPROVER_assert(src[k] == want, "C15.xmemcpy.src: the source (and its guard byte) is unchanged"); \
+    __CPROVER_assert(k == (C) * N ? dst[k] == dwas : dst[k] == want, "C15.xmemcpy.copy: byte k < chunks * N is copied; the byte after the chunks * N bytes is not written"); \
+  } break;
+#define H_XMEMCPY_SPLIT(N)                                                                             \
+void h_Xmemcpy_##N##_split(void) {                                                                     \
+  size_t chunks; __CPROVER_assume(chunks <= XM_SPLIT_MAX); in_chunks = chunks;                         \
+  switch (chunks) {                                                                                    \
+    XM_CASE(N, 0) XM_CASE(N, 1) XM_CASE(N, 2) XM_CASE(N, 3) XM_CASE(N, 4)                              \
+    XM_CASE(N, 5) XM_CASE(N, 6) XM_CASE(N, 7) XM_CASE(N, 8) XM_CASE(N, 9)                              \
+    default: break;                                                                                    \
+  }                                                                                                    \
+  CANARY();                                                                                            \
+}
+H_XMEMCPY_SPLIT(16)
+H_XMEMCPY_SPLIT(32)
